@@ -413,6 +413,9 @@ func MsiHandle(f []string) string {
 		defer cdf.Close()
 		var buf bytes.Buffer
 		if err := authenticode.MsiToTar(cdf, &buf); err != nil {
+			if strings.Contains(err.Error(), "cannot be represented in the tar form") {
+				return "err:tar-name" // checkMsiTarNames: a reserved tar name in the root storage
+			}
 			return "err:" + strings.ReplaceAll(err.Error(), " ", "_")
 		}
 		tarBytes = buf.Bytes()
